@@ -248,6 +248,50 @@ func RuleKAccrualDates(c *core.Ctx) {
 			})
 		})
 	}
+	// … or a helper of the package (function or method) that builds the
+	// transaction from its parameters: each call of it in the expansion is a site
+	nested := map[*ssa.Function]bool{}
+	for _, g := range core.WithAnon(fn) {
+		nested[g] = true
+	}
+	helperDateParam := func(g *ssa.Function) int {
+		idx := -1
+		core.EachInstr(g, func(ins ssa.Instruction) {
+			a, ok := ins.(*ssa.Alloc)
+			if !ok {
+				return
+			}
+			pt, ok := a.Type().Underlying().(*types.Pointer)
+			if !ok || !isNamed(pt.Elem(), tbT) || a.Referrers() == nil {
+				return
+			}
+			for _, r := range *a.Referrers() {
+				if fa, ok := r.(*ssa.FieldAddr); ok && core.FieldOf(fa).Name() == "Date" {
+					for _, st := range core.StoresTo(fa) {
+						if prm, ok := core.Strip(st.Val).(*ssa.Parameter); ok {
+							idx = paramIndex(prm)
+						}
+					}
+				}
+			}
+		})
+		return idx
+	}
+	for _, g := range core.WithAnon(fn) {
+		core.EachInstr(g, func(ins ssa.Instruction) {
+			call, ok := ins.(*ssa.Call)
+			if !ok {
+				return
+			}
+			callee := call.Call.StaticCallee()
+			if callee == nil || nested[callee] || callee.Blocks == nil || core.PkgPathOf(callee) != pkgTransaction {
+				return
+			}
+			if idx := helperDateParam(callee); idx >= 0 && idx < len(call.Call.Args) {
+				sites = append(sites, site{call, call.Call.Args[idx]})
+			}
+		})
+	}
 	for _, st := range sites {
 		a, dateVal := st.at, st.dateVal
 		// is this literal inside a loop over EndDates?
